@@ -42,6 +42,7 @@ type runner struct {
 	fracOf    map[model.ID]string // learned from hints at quiescent points
 	fracSeen  map[string]bool
 	gone      map[string]bool // fractions observed (completely) gone after a restart
+	stopping  bool            // a graceful stop runs next to other clients: refusals and a dying process are expected
 	hadIndex  map[string]bool // fractions whose published sealed form (.index) was on disk in some boot image
 	forms     map[string]string
 	log       []string
@@ -245,7 +246,7 @@ func (r *runner) checkUnplannedDeath() {
 		return // planned crash or harness kill
 	}
 	r.logf("process died: %s", firstLine(note))
-	if r.c.Oracles.TolerateDeath && r.errFiredNow() {
+	if (r.c.Oracles.TolerateDeath && r.errFiredNow()) || r.stopping {
 		return
 	}
 	r.classifyDeath(note)
@@ -275,6 +276,23 @@ func (r *runner) step(st *Step) {
 	switch st.Kind {
 	case "start":
 		r.start()
+	case "start_cancelled":
+		// an operator interrupts the start-up (SIGTERM reaches Load through its context): the process gives
+		// up; whatever it did to the disk until then must leave everything in place for the next start
+		if !(r.st.Loaded && r.st.Node.Alive()) {
+			r.imageProbes()
+			res := r.st.StartCancelled(bootTimeout, int(st.Ms))
+			r.logf("start with cancellation at poll %d -> %s %s", st.Ms, res, firstLine(r.st.Node.Note()))
+			r.res.Fired["start_cancelled"]++
+			if res != "loaded" {
+				if res == "timeout" {
+					r.st.Node.Kill("boot timeout", true)
+				} else if n := r.st.Node.Note(); n != "" && !strings.Contains(n, "context canceled") {
+					r.violate("startup", "interrupted start-up ended with something else than the cancellation: %s", n)
+				}
+				r.st.Loaded = false
+			}
+		}
 	case "par":
 		r.par(st.Clients)
 	case "arm":
@@ -343,6 +361,7 @@ func (r *runner) start() {
 	if r.st.Loaded && r.st.Node.Alive() {
 		return
 	}
+	r.stopping = false
 	r.imageProbes()
 	res := r.st.Start(bootTimeout)
 	r.logf("start -> %s", res)
@@ -522,8 +541,24 @@ func (r *runner) clientOp(ci int, op *Op) {
 				r.violate("hang", "bulk #%d did not return within %s simulated\n%s", op.Bulk, opTimeout, r.s.DumpTasks())
 			}
 		case status == "done" && err != nil:
-			if r.c.Oracles.NoErrors || !r.errFiredNow() {
+			if (r.c.Oracles.NoErrors || !r.errFiredNow()) && !r.stopping {
 				r.violate("api_error", "bulk #%d returned error without any injected fault: %v", op.Bulk, err)
+			}
+		}
+	case "stop":
+		// graceful stop while other clients keep sending (the store is stopped before whoever feeds it, as in
+		// single mode): a bulk that is refused or a process that dies during the stop is a crash like any
+		// other - what was acknowledged must be there after the next start
+		if r.st.Loaded && r.st.Node.Alive() {
+			r.stopping = true
+			// a stop that does not finish within two simulated minutes is ended by the supervisor (SIGKILL):
+			// stopping under load is not something the store promises to survive gracefully, only safely
+			res := r.st.StopGraceful(2 * time.Minute)
+			r.logf("c%d stop under load -> %s", ci, res)
+			r.res.Fired["stop_under_load"]++
+			if res == "timeout" {
+				r.s.Probe("stop_under_load_killed")
+				r.st.KillProcess()
 			}
 		}
 	case "search":
@@ -542,6 +577,10 @@ func mid(id seq.ID) model.ID { return model.ID{MID: uint64(id.MID), RID: uint64(
 
 // adhocSearch is a search issued while writers may be running: soundness only.
 func (r *runner) adhocSearch(ci int, s *Search) {
+	var before []simenv.FracInfo
+	if r.c.Oracles.Retention && r.st.Loaded {
+		before = r.st.Fracs()
+	}
 	res, status, err := r.st.Search(opTimeout, toReq(s))
 	if status == "dead" {
 		return
@@ -559,6 +598,11 @@ func (r *runner) adhocSearch(ci int, s *Search) {
 	r.logf("c%d search -> %d hits", ci, len(res.Hits))
 	if !r.checkSound(s, res, "concurrent") {
 		return
+	}
+	if before != nil && r.st.Loaded && r.st.Node.Alive() {
+		if !r.checkStableFractions(s, res, before, r.st.Fracs()) {
+			return
+		}
 	}
 	// every returned id can be fetched immediately with exactly its bytes
 	if len(res.Hits) == 0 {
@@ -600,6 +644,63 @@ func (r *runner) adhocSearch(ci int, s *Search) {
 			return
 		}
 	}
+}
+
+// checkStableFractions: a search that runs while retention retires fractions (and writers add new ones)
+// may legitimately miss documents of fractions that went away. But a fraction that was sealed before the
+// search and is still served after it was there all the time with the same content: each of its matching
+// documents must be listed, unless the listing is full and ends before the document.
+func (r *runner) checkStableFractions(s *Search, res *simenv.SearchRes, before, after []simenv.FracInfo) bool {
+	stable := map[string]bool{}
+	for _, f := range before {
+		if f.Sealed {
+			stable[f.Name] = true
+		}
+	}
+	still := map[string]bool{}
+	for _, f := range after {
+		still[f.Name] = true
+	}
+	listed := map[model.ID]bool{}
+	for _, h := range res.Hits {
+		listed[mid(h.ID)] = true
+	}
+	if s.Size == 0 {
+		return true // a listing of nothing is complete
+	}
+	var last model.ID
+	full := len(res.Hits) >= s.Size
+	if len(res.Hits) > 0 {
+		last = mid(res.Hits[len(res.Hits)-1].ID)
+	}
+	checked := false
+	for id, fname := range r.fracOf {
+		if !stable[fname] || !still[fname] || listed[id] {
+			continue
+		}
+		d := r.issued[id]
+		if d == nil || d.MID < s.From || d.MID > s.To || !s.Q.Match(d) {
+			continue
+		}
+		checked = true
+		beyondCut := full && ((s.Desc && model.Less(id, last)) || (!s.Desc && model.Less(last, id)))
+		if !beyondCut {
+			r.violate("search_incomplete", "concurrent search %q [%d,%d] desc=%v size=%d lists %d ids without %s of fraction %s, which was sealed before the search and is still served after it (last listed %s)",
+				s.Q.SeqQL(), s.From, s.To, s.Desc, s.Size, len(res.Hits), id, fname, last)
+			return false
+		}
+	}
+	if checked {
+		r.s.Probe("stable_fraction_docs_checked")
+	}
+	for _, h := range res.Hits {
+		if h.Hint != "" {
+			if _, ok := r.fracOf[mid(h.ID)]; !ok {
+				r.fracOf[mid(h.ID)] = h.Hint
+			}
+		}
+	}
+	return true
 }
 
 func clip(b []byte) string {
